@@ -178,6 +178,15 @@ url_pattern_component<regex_provider>::compile(
     }
   }
 
+#if ADA_URL_ADA_VERIF
+  // H5: a harness can force the general (regular expression) representation.
+  if (component_type != url_pattern_component_type::REGEXP &&
+      ::ada::verif::force_regexp_components.load(std::memory_order_relaxed)) {
+    ADA_VERIF_COUNT(C_PATTERN_FORCED_REGEXP);
+    component_type = url_pattern_component_type::REGEXP;
+    exact_match_value.clear();
+  }
+#endif  // ADA_URL_ADA_VERIF
   // For simple patterns, skip regex generation and compilation entirely
   if (component_type != url_pattern_component_type::REGEXP) {
     auto pattern_string =
